@@ -181,8 +181,8 @@ Proof.
   { induction l0 as [|id l0 IH]; intros acc A; cbn [fold_left]; [exact A|].
     apply IH. destruct acc as [[b1 pg1] o1]. cbn [snd] in *. unfold remove_session_sub.
     destruct (nget (b_subs b1) id) as [s|]; [|exact A].
-    match goal with |- context [if ?c then _ else _] => destruct c end; cbn [snd]; [|exact A].
-    apply noend_app; [exact A|apply sub_meta_event_noend]. }
+    match goal with |- context [if ?c then _ else _] => destruct c end; cbn [snd];
+      repeat (apply noend_app); try exact A; apply sub_meta_event_noend. }
   apply G. apply noend_nil.
 Qed.
 
@@ -321,7 +321,7 @@ Qed.
 
 (** ** The meta session's registrations stay its own *)
 Definition meta_reg (rg : registration) : Prop :=
-  reg_callees rg = [meta_id] /\ reg_disclose rg = true /\ reg_policy rg = "".
+  reg_callees rg = [meta_id] /\ reg_disclose rg = [meta_id] /\ reg_policy rg = "".
 
 Definition mregs (d : dealer) : Prop :=
   forall id rg, nget (d_regs d) id = Some rg -> In meta_id (reg_callees rg) -> meta_reg rg.
